@@ -39,7 +39,7 @@ static int enabled_ops(op_t *o, int max) {
         mod_t *m = &MD[s]; int have = handle(s) != NULL;
         if ((P.groups & G_REG) && (CX.exists || (P.groups & G_CTX)) && (!m->present ? (m->extra == 0) : (P.groups & G_ILLEGAL) != 0)) {
             for (int e = 0; e < 3; e++) if (P.evals & (1u << e)) for (int sr = 1; sr >= (P.refuse_start ? 0 : 1); sr--)
-                for (int f = 0; f < 7; f++) if (P.flagset & (1u << f)) { if (m->present && (e || !sr || f)) continue; EMIT(O_REG, s, e * 2 + sr, f); }
+                for (int f = 0; f < 7; f++) if (P.flagset & (1u << f)) { if (m->present && (e || !sr || (f && f != 1))) continue; if (m->present && m->extra) continue; EMIT(O_REG, s, e * 2 + sr, f); }
         }
         if (!have) continue;
         int st = m->st, ill = (P.groups & G_ILLEGAL) != 0;
@@ -74,6 +74,8 @@ static int enabled_ops(op_t *o, int max) {
         if ((P.groups & G_ARM) && dev < P.maxdev && m->present) for (int cb = 0; cb < NCB; cb++) if ((P.armcbs & (1u << cb)) && !m->armed[cb].act) {
             if (cb == CB_EVAL && !m->evalmode) continue;
             for (int a = 1; a < A_MAX; a++) if (P.acts & (1u << a)) {
+                /* what module calls do while a callback of a DENY_CTX module executes is unspecified: only context calls are generated there */
+                if (mflag(s, M_MOD_DENY_CTX) && a != A_CTXCALL && a != A_QUIT && a != A_ERRNO) continue;
                 switch (a) {
                 case A_STOP: case A_DEREG: case A_PAUSE: for (int t = 0; t < NMO; t++) { if (a == A_STOP && t == s && cb == CB_STOP) continue; EMIT(O_ARM, s, cb * 32 + a, t); } break;
                 case A_START: case A_RESUME: for (int t = 0; t < NMO; t++) if (t != s) EMIT(O_ARM, s, cb * 32 + a, t); break;
